@@ -1864,6 +1864,9 @@ def fuse_activation_function_with_prev(op, arch, nng):
     if op.activation_lut is not None:
         prev_op.set_activation_lut(op.activation_lut)
     # Bypass op
+    if ifm.force_linear_format:
+        # A format requirement of prev_op (the swapped strides of a transpose) stays with its output
+        ofm.force_linear_format = True
     prev_op.set_output_tensor(ofm)
     DebugDatabase.add_optimised(prev_op, prev_op)
     return op
